@@ -103,3 +103,35 @@ func verifHarness_C06_RetryLimit() {
 	rt.Assert(s.done && s.returned, "the client is told once the retry limit is exceeded")
 	_ = time.Second
 }
+
+// Two worker-created platform queues disappear one after the other: the list of
+// platform queues and its index stay consistent, and nothing is left.
+func verifHarness_C06_TwoDynamicQueues() {
+	rt.PreemptionBound(0)
+	steps := 3
+	if rt.Tier() > 0 {
+		steps = 5
+	}
+	rt.Bound("steps", steps)
+	rt.MustCover("teardown:clean", "act:advance")
+	r := vsNewRig(1)
+	linux, mac := vsPlatform("os", "linux"), vsPlatform("os", "mac")
+	r.addClient("", r.addAction(1, linux, false), 0, "inv-a")
+	r.addWorker("", linux, 0, "w-linux")
+	r.addWorker("", mac, 0, "w-mac")
+	r.sync(r.workers[0], vsSyncIdlePreferIdle)
+	rt.Quiesce()
+	r.sync(r.workers[1], vsSyncIdlePreferIdle)
+	rt.Quiesce()
+	r.walk()
+	o := &vsOpts{
+		maxExecs:    1,
+		idleKinds:   []int{vsSyncIdlePreferIdle},
+		syncKinds:   []int{vsSyncCompletedOK},
+		maxSyncs:    3,
+		advances:    []time.Duration{vsWorkerTimeout / 2, vsWorkerTimeout + time.Second, vsQueueTimeout + time.Second},
+		maxAdvances: 3,
+	}
+	r.drive(o, steps)
+	r.teardown(o)
+}
